@@ -544,6 +544,22 @@ example : ∃ (H : Spec.Mac) (aa spa n1 n2 : Bytes), (∀ k d, (H k d).length = 
   ⟨fun _ _ => List.replicate 20 0, [1, 2, 3, 4, 5, 9], [1, 2, 3, 4, 5, 6], List.replicate 31 0 ++ [2], List.replicate 31 0 ++ [1],
    fun _ _ => rfl, rfl, rfl, by decide, by decide, by decide⟩
 
+/-- **The literals of the source are the model's.** What the translator reads at named anchors of
+    `SessionKeys::SessionKeys(const RSNHandshake&, const pmk_type&)` and `SupplicantData` on every run — the label string,
+    the offsets of min / max address, smaller / larger nonce and counter in `PKE[100]`, the loop `for i < 4` writing
+    `PKE[99] = i` and 20 octets per round, the zeroed range `81 … 81 + 16`, the full-length MIC comparison, the 16-octet
+    KCK, the PMK size and the PBKDF2 iteration count — is the layout the model `deriveKeys` / `supplicantPmk` uses and
+    the specification's label and Key MIC field. -/
+theorem kdf_source_literals :
+    Gen.kdfLabel = Spec.pairwiseLabel ∧ Gen.kdfLabel ++ [0] = pkeLabel ∧
+    Gen.kdfLabel.length + 1 = Gen.kdfAddrOff1 ∧ Gen.kdfAddrOff1 + 6 = Gen.kdfAddrOff2 ∧
+    Gen.kdfAddrOff2 + 6 = Gen.kdfNonceOff1 ∧ Gen.kdfNonceOff1 + 32 = Gen.kdfNonceOff2 ∧
+    Gen.kdfNonceOff2 + 32 = Gen.kdfCounterOff ∧ Gen.kdfCounterOff + 1 = Gen.kdfPkeSize ∧
+    Gen.kdfRounds = 4 ∧ Gen.kdfStride = 20 ∧ Gen.kdfRounds * Gen.kdfStride = Gen.kdfPtkSize ∧
+    Gen.kdfCounterIsIndex = true ∧ Gen.kdfSmallerNonceFirst = true ∧
+    Gen.kdfMicOff = Spec.KeyField.mic.offset ∧ Gen.kdfMicLen = Spec.KeyField.mic.size ∧ Gen.kdfMicCompareFull = true ∧
+    Gen.kdfKckLen = 16 ∧ Gen.kdfPmkSize = 32 ∧ Gen.kdfPbkdf2Iter = 4096 := by decide
+
 /-- key descriptor versions the specification does not cover (0, 3 … 7) are treated like version 1: accepted only
     with an HMAC-MD5 MIC, cipher TKIP -/
 theorem derive_keys_other_versions (H : Spec.Mac) (micf : Bool → Spec.Mac) (hs : Handshake) (pmk : Bytes) (k : SessionKeys)
@@ -585,6 +601,19 @@ theorem handshake_complete_all_histories (k : AddrPair) (xs : List (Hdr × Eapol
     ofPair k (c.run xs).completed = done0 ++ t'.completed.map (Attempt.handshake k) ∧
     phaseEntry t'.phase ((c.run xs).entry k) :=
   capturer_run_valid k xs c t t' done0 hc hp ht
+
+/-- non-vacuity of `handshake_complete_all_histories`: M1 M1 M2 M2 M3 M4 M4 of one pair with a frame of another pair in
+    between is a word of the grammar and completes one attempt -/
+example :
+    let h1 : Hdr := { fc0 := 0x08, fc1 := 0x02, addr1 := [2, 0, 0, 0, 0, 9], addr2 := [2, 0, 0, 0, 0, 1], addr3 := [2, 0, 0, 0, 0, 1],
+                      sc0 := 0, sc1 := 0 }
+    let h2 : Hdr := { fc0 := 0x08, fc1 := 0x01, addr1 := [2, 0, 0, 0, 0, 1], addr2 := [2, 0, 0, 0, 0, 9], addr3 := [2, 0, 0, 0, 0, 1],
+                      sc0 := 0, sc1 := 0 }
+    let h3 : Hdr := { h2 with addr2 := [2, 0, 0, 0, 0, 7] }
+    let e (a b : UInt8) : Eapol := ⟨1, 3, 2, [a, b], [], []⟩
+    ((({} : Track).runCap (pairOf h1)
+      [(h1, e 0x00 0x8a), (h1, e 0x00 0x8a), (h2, e 0x01 0x0a), (h3, e 0x01 0x0a), (h2, e 0x01 0x0a), (h1, e 0x13 0xca),
+       (h2, e 0x03 0x0a), (h2, e 0x03 0x0a)]).map fun t => t.completed.length) = some 1 := by decide
 
 /-- from ANY capturer state: the start position fits every state -/
 theorem handshake_complete_from_any_state (k : AddrPair) (xs : List (Hdr × Eapol)) (c : Capturer) (t' : Track)
